@@ -46,6 +46,41 @@ def tyFnOf (name : List Nat) (idx : Nat) : Option TyFn :=
     (if idx = 0 then some (.memberOf 7) else if idx = 1 then some (.memberOf 9) else none)
   else none
 
+/-- `TypeFn` of `array_agg`: `List<t>` -/
+def aggTyFn (t : Ty) : Option Ty := some (.list t)
+
+mutual
+/-- syntactic equality of types (`Ty` is a nested inductive: no derived `DecidableEq`) -/
+def tyBeq : Ty → Ty → Bool
+  | .null, .null | .int, .int | .float, .float | .bool, .bool | .str, .str | .time, .time | .dur, .dur
+  | .listNil, .listNil | .any, .any => true
+  | .list a, .list b => tyBeq a b
+  | .struct ns ts, .struct ns' ts' => ns == ns' && tyBeqList ts ts'
+  | .tuple ts, .tuple ts' => tyBeqList ts ts'
+  | .union ts, .union ts' => tyBeqList ts ts'
+  | _, _ => false
+def tyBeqList : List Ty → List Ty → Bool
+  | [], [] => true
+  | a :: as, b :: bs => tyBeq a b && tyBeqList as bs
+  | _, _ => false
+end
+
+/-- does the hand-written model of the `TypeFn` of `(name, idx)` answer a probe as the real closure did? -/
+def probeOk (p : Probe) : Bool :=
+  match tyFnOf p.name p.idx with
+  | some f =>
+    (match applyTyFn f p.args, p.result with
+     | some (some o), some r => tyBeq o r
+     | some none, none => true
+     | _, _ => false)
+  | none => false
+
+def aggProbeOk (p : AggProbe) : Bool :=
+  match aggTyFn p.arg, p.result with
+  | some o, some r => tyBeq o r
+  | none, none => true
+  | _, _ => false
+
 /-- the descriptor of a generated entry -/
 def descrOf (e : Entry) : Descr :=
   { args := e.args, out := e.out, strict := e.strict,
@@ -61,9 +96,6 @@ def descrsOf (name : List Nat) : List Descr := (table.filter (fun e => e.name = 
 
 /-- the function environment over the generated table, for given bodies -/
 def sigOf (body : Name → Nat → List Value → Res) : Sig := { descrs := descrsOf, body := body }
-
-/-- `TypeFn` of `array_agg`: `List<t>` -/
-def aggTyFn (t : Ty) : Option Ty := some (.list t)
 
 def aggDescrOf (e : AggEntry) : AggDescr :=
   { arg := e.arg, out := e.out, typeFn := if e.hasTypeFn then some aggTyFn else none }
